@@ -700,11 +700,11 @@ theorem Root.checkOrd_ex {r : IR.Regex} {prog : Prog} {sk : Sk} (R : Root r prog
 
 /-! ## Non-vacuity: the program of `(?:(a)|b)*(?=(.))` -/
 
-def exSk : Sk :=
+def ordExSk : Sk :=
   .seq (.loop 0 0 none true 1 1 (.alt (.group 1 (.one (.char 97))) (.one (.char 98))))
     (.seq (.look false false 2 3 (.group 2 (.one .matchAny))) (.one .goal))
 
-def exProg : Prog :=
+def ordExProg : Prog :=
   { (default : Prog) with
     insns := #[.enterLoop 0 0 none true 9, .resetCaptureGroup 1, .alt 7, .beginCaptureGroup 1, .char 97,
       .endCaptureGroup 1, .jump 8, .char 98, .loopAgain 0, .lookahead false 2 3 14, .beginCaptureGroup 2,
@@ -712,23 +712,23 @@ def exProg : Prog :=
     loops := 1
     groups := 3 }
 
-theorem exLay : Lay exProg.insns exSk 0 := by
-  simp only [exSk, Lay, Sk.size, At, lookI]
+theorem ordExLay : Lay ordExProg.insns ordExSk 0 := by
+  simp only [ordExSk, Lay, Sk.size, At, lookI]
   refine ⟨⟨rfl, ?_, ⟨rfl, ⟨rfl, rfl, rfl⟩, rfl, rfl⟩, rfl⟩, ⟨rfl, ⟨rfl, rfl, rfl⟩, rfl⟩, rfl⟩
   intro i hi
   have : i = 0 := by omega
   subst this; rfl
 
-example : exProg.insns.size = exSk.size ∧ exSk.ok exProg.groups 0 1 = true ∧ exSk.gsc 0 3 = true ∧
-    exSk.rex = true ∧ exSk.begins.Nodup := by decide
+example : ordExProg.insns.size = ordExSk.size ∧ ordExSk.ok ordExProg.groups 0 1 = true ∧ ordExSk.gsc 0 3 = true ∧
+    ordExSk.rex = true ∧ ordExSk.begins.Nodup := by decide
 
 /-- The hypotheses of `checkOrd_ordCert` are satisfiable … -/
-example : checkOrd exProg (ordCert exSk exProg.groups) = true :=
-  checkOrd_ordCert (nb := 0) (L := 1) (lo := 0) (hi := 3) exLay (by decide) (by decide) (by decide) (by decide)
+example : checkOrd ordExProg (ordCert ordExSk ordExProg.groups) = true :=
+  checkOrd_ordCert (nb := 0) (L := 1) (lo := 0) (hi := 3) ordExLay (by decide) (by decide) (by decide) (by decide)
     (by decide)
 
 /-- … and the checker indeed evaluates to `true` on the explicit certificate. -/
-example : checkOrd exProg (ordCert exSk exProg.groups) = true := by decide +kernel
+example : checkOrd ordExProg (ordCert ordExSk ordExProg.groups) = true := by decide +kernel
 
 #print axioms Root.checkOrd_ex
 
